@@ -577,6 +577,15 @@ class Machine:
                     if rv[0] != 'n' or rv[1] != 'abs':
                         raise Unsupported('filter closure does not return a known bool')
                     rv = some(post[1]) if rv[2] else NONE
+                elif post[0] == 'search':
+                    # one test of <[u8]>::iter().position / rposition: found -> Some(index); otherwise the next byte, or None at the end
+                    if rv[0] != 'n' or rv[1] != 'abs':
+                        raise Unsupported('search closure does not return a known bool')
+                    _, sl, k, d, clo = post
+                    if rv[2]:
+                        rv = some(k if sl[1] == A0 else self.sub(k, sl[1]))
+                    else:
+                        return self.search_step(st, 1, sl, self.add(k, N('abs', d)), d, clo, dest, ret_bb)
             cl[dest] = rv
             nf = frames[:-2] + ((caller[0], ret_bb, 0, tuple(cl), caller[4], caller[5], caller[6]),)
             return [(nf,) + st[1:]]
@@ -615,6 +624,35 @@ class Machine:
             return [self.set_top(st, locs, t['target'], 0)]
         raise Unsupported(f'terminator {k}')
 
+    def search_step(self, st, pop, sl, k, d, clo, dest, ret_bb):
+        """position (d = 1) / rposition (d = -1) of a byte slice at index k: past the end -> None, otherwise the closure is run on byte k.
+        The top `pop` frames of st (the closure frame that just returned) are dropped in the successors; tests and the character read are
+        made on st itself, so that a Retry re-executes the statement st is at.  The caller continues at ret_bb with the result in `dest`."""
+        outs = []
+        end = self.add(sl[1], sl[2]) if sl[1] != A0 else sl[2]
+        for sg, s2 in (self.sign(st, k, end) if d == 1 else self.sign(st, self.add(k, N('abs', 1)), sl[1])):
+            fr = s2[0][:len(s2[0]) - pop]
+            inside = sg < 0 if d == 1 else sg > 0
+            if not inside:
+                l2 = list(fr[-1][3])
+                l2[dest] = NONE
+                top = fr[-1]
+                outs.append((fr[:-1] + ((top[0], ret_bb, 0, tuple(l2), top[4], top[5], top[6]),),) + s2[1:])
+                continue
+            o = self.char_at(s2, k)
+            if isinstance(o, Retry):
+                raise RetryExc(o)
+            cb = self.bodies.get(clo[1])
+            if cb is None:
+                raise Unsupported('closure body not available: ' + clo[1])
+            nl = [None] * len(cb['locals'])
+            nl[1] = clo
+            nl[2] = ('chr', o)
+            if len(fr) > 10:
+                raise Unsupported('call depth')
+            outs.append((fr + ((clo[1], 0, 0, tuple(nl), dest, ret_bb, ('search', sl, k, d, clo)),),) + s2[1:])
+        return outs
+
     def combinator(self, st, frames, name, args, t):
         """std combinators that take a closure of this crate: the closure body is run as a frame whose return value the combinator finishes"""
         if name is None or not args:
@@ -639,6 +677,15 @@ class Machine:
             if len(frames) > 10:
                 raise Unsupported('call depth')
             return [(frames + ((clo[1], 0, 0, tuple(nl), t['dest']['local'], t['target'], post),),) + st[1:]]
+        if isinstance(a0, tuple) and a0 and a0[0] == 'ref' and isinstance(frames[-1][3][a0[1]], tuple) and frames[-1][3][a0[1]][0] == 'siter':
+            a0 = frames[-1][3][a0[1]]
+        if name.endswith('<impl [T]>::iter') and isinstance(a0, tuple) and a0 and a0[0] == 'str' and len(args) == 1:
+            return set_dest(('siter', a0))
+        if isinstance(a0, tuple) and a0 and a0[0] == 'siter' and clo is not None and base in ('position', 'rposition') and 'Iterator' in name:
+            sl = a0[1]
+            d = 1 if base == 'position' else -1
+            k0 = sl[1] if d == 1 else self.add(self.add(sl[1], sl[2]) if sl[1] != A0 else sl[2], N('abs', -1))
+            return self.search_step(st, 0, sl, k0, d, clo, t['dest']['local'], t['target'])
         is_opt = isinstance(a0, tuple) and a0 and a0[0] == 'adt' and a0[1] == 'Option'
         if name.endswith('Option::<T>::map') and is_opt and clo is not None:
             return set_dest(NONE) if a0[2] == 0 else run_closure([a0[3][0]], ('some',))
